@@ -262,11 +262,36 @@ def install(tap, run):
         for key, message in problems[:2]:
             run.violation(monitor, message, witness, key=key)
 
-    def sum_tolerance(terms):
+    def sum_tolerance(terms, eps=EPS):
         total = 0.0
         for term in terms:
             total = total + np.abs(np.nan_to_num(np.asarray(term, dtype="float64").ravel(), nan=0.0, posinf=0.0, neginf=0.0))
-        return 64 * EPS * total + TINY
+        return 64 * eps * total + TINY
+
+    def working_eps(raw_terms, label):
+        """
+        float64 eps, unless one of the *operands the code was given* (a step's prediction, a residual it received) is itself a narrower
+        float: numpy then computes in that precision and the term carries no more information. Counted as either-way, never silently.
+        Integer and float64 operands (and narrow *data* with float64 predictions) leave the float64 tolerance in force.
+        """
+        eps = EPS
+        for term in raw_terms:
+            dtype = np.asarray(term).dtype
+            if dtype.kind == "f" and dtype.itemsize < 8:
+                eps = max(eps, float(np.finfo(dtype).eps))
+        if eps > EPS:
+            run.count("either_way:%s:narrow_float_operand" % label)
+        return eps
+
+    def dtype_class(data):
+        kinds = sorted(set(str(np.asarray(d).dtype) for d in _tup(data)))
+        if len(kinds) > 1:
+            run.seen("mixed_dtype_combinations", "+".join(kinds))
+            return "mixed"
+        return kinds[0]
+
+    def integer_coordinates(coords):
+        return any(np.asarray(c).dtype.kind in "iu" for c in coords[:2])
 
     # -- filter of a gridder ------------------------------------------------
     def prediction_of(ev, obj, coords):
@@ -328,17 +353,23 @@ def install(tap, run):
                         break
                     d64 = np.asarray(d, dtype="float64")
                     p64 = np.asarray(p, dtype="float64").reshape(d64.shape)
-                    ok, ratio = _close(r, d64 - p64, sum_tolerance([d64, p64]).reshape(d64.shape))
+                    # reference: float64(data) - float64(prediction); float64 tolerance unless data AND prediction are both narrow floats
+                    promoted = np.result_type(np.asarray(d).dtype, np.asarray(p).dtype)
+                    eps = working_eps([np.zeros(0, dtype=promoted)], "filter")
+                    ok, ratio = _close(r, d64 - p64, sum_tolerance([d64, p64], eps).reshape(d64.shape))
                     run.observe_max("filter_residual_error_over_tolerance", ratio)
                     if np.isnan(p64).any():
                         run.count("nan_prediction:filter")
                     if not ok:
-                        wrong_sign, _ = _close(r, p64 - d64, sum_tolerance([d64, p64]).reshape(d64.shape))
+                        wrong_sign, _ = _close(r, p64 - d64, sum_tolerance([d64, p64], eps).reshape(d64.shape))
                         problems.append(("filter:residual", "residual component %d is not data - prediction (error/tolerance %.3g%s)"
                                          % (i, ratio, "; it is prediction - data" if wrong_sign else "")))
                         break
         run.evaluated("filter")
         run.count("filter_of:" + kind_of(obj))
+        run.count("filter_data_dtype:" + dtype_class(data))
+        if integer_coordinates(coords):
+            run.count("filter_coordinates:integer")
         if np.ndim(_tup(data)[0]) >= 2:
             run.count("filter:2d_data")
         if len(coords) > 2:
@@ -423,6 +454,12 @@ def install(tap, run):
         run.count("chain_len:%d" % len(steps))
         run.count("chain_components:%d" % ncomp)
         run.count("chain_weights:%s" % ("given" if given[2] is not None else "none"))
+        run.count("chain_data_dtype:" + dtype_class(given[1]))
+        first_pred = [k for k, s in enumerate(steps) if predicts(s)]
+        if first_pred and first_pred[0] < len(steps) - 1:
+            run.count("chain_predicting_step_followed:data_dtype:" + dtype_class(given[1]))
+        if integer_coordinates(given[0]):
+            run.count("chain_coordinates:integer")
         if ev.parent is not None:
             run.count("chain_fit:nested")
         if np.ndim(_tup(given[1])[0]) >= 2:
@@ -491,7 +528,8 @@ def install(tap, run):
                     undefined = np.isnan(total) & ~np.isnan(d64)  # a step predicted NaN there (Linear/Cubic on the hull): nothing to conserve
                     if undefined.any():
                         run.count("nan_prediction:conservation_positions_excluded", int(undefined.sum()))
-                    ok, ratio = _close(np.where(undefined, d64, total), d64, sum_tolerance(terms + [r64, d64]).reshape(d64.shape))
+                    eps = working_eps([p[i] for p in preds] + [r_t[i]], "conservation_events")
+                    ok, ratio = _close(np.where(undefined, d64, total), d64, sum_tolerance(terms + [r64, d64], eps).reshape(d64.shape))
                     run.observe_max("conservation_error_over_tolerance", ratio)
                     if not ok:
                         report("conservation_events", [("chain:conservation", "component %d: predictions of steps %d.. at the data + last residual != data entering them (error/tolerance %.3g)"
@@ -500,7 +538,12 @@ def install(tap, run):
             else:
                 run.count("skipped:conservation_events_unusable_tree")
             if not any(predicts(s) for s in steps[:last_red + 1]):
-                total_pred = _tup(quiet(chain.predict, c_in))
+                try:
+                    total_pred = _tup(quiet(chain.predict, c_in))
+                except Exception as exc:  # noqa: BLE001 - only normal returns are judged; the raise is counted, the workload meets it too
+                    run.count("skipped:conservation_predict:chain.predict_raised:" + type(exc).__name__)
+                    remember_chain(chain, ev, given, desc)
+                    return
                 run.evaluated("conservation_predict")
                 bad = None
                 if len(total_pred) != len(d_t) or len(r_t) != len(d_t):
@@ -518,7 +561,8 @@ def install(tap, run):
                         undefined = (np.isnan(p64) | np.isnan(r64)) & ~np.isnan(d64)
                         if undefined.any():
                             run.count("nan_prediction:predict_plus_residual_positions_excluded", int(undefined.sum()))
-                        ok, ratio = _close(np.where(undefined, d64, p64 + r64), d64, sum_tolerance([p64, r64, d64] + extra).reshape(d64.shape))
+                        eps = working_eps([total_pred[i], r_t[i]] + [p[i] for p in (preds or [])], "conservation_predict")
+                        ok, ratio = _close(np.where(undefined, d64, p64 + r64), d64, sum_tolerance([p64, r64, d64] + extra, eps).reshape(d64.shape))
                         run.observe_max("chain_predict_plus_residual_error_over_tolerance", ratio)
                         if not ok:
                             bad = "component %d: chain.predict at the data + last step's residual != data (error/tolerance %.3g)" % (i, ratio)
@@ -546,7 +590,11 @@ def install(tap, run):
             return
         fresh = quiet(lambda: clone(chain).fit(*given))
         at = given[0]
-        old_p, new_p = _tup(quiet(chain.predict, at)), _tup(quiet(fresh.predict, at))
+        try:
+            old_p, new_p = _tup(quiet(chain.predict, at)), _tup(quiet(fresh.predict, at))
+        except Exception as exc:  # noqa: BLE001
+            run.count("skipped:refit:predict_raised:" + type(exc).__name__)
+            return
         run.evaluated("refit_equals_fresh")
         scale = max(_absmax(given[1]), _absmax(new_p), TINY)
         bad = None
@@ -596,7 +644,8 @@ def install(tap, run):
                     total = terms[0]
                     for t in terms[1:]:
                         total = total + t
-                    ok, ratio = _close(res_t[i], total, sum_tolerance(terms).reshape(np.shape(total)))
+                    eps = working_eps([p[i] for p in parts], "chain_predict_sum")
+                    ok, ratio = _close(res_t[i], total, sum_tolerance(terms, eps).reshape(np.shape(total)))
                     run.observe_max("chain_predict_sum_error_over_tolerance", ratio)
                     if not ok:
                         problems.append(("chain_predict:sum", "component %d is not the sum of the %d step predictions (error/tolerance %.3g)" % (i, len(terms), ratio)))
